@@ -73,6 +73,7 @@ class C03(HeapCheck):
         "not_own_ancestor", "in_exactly_one_list", "document_is_chain_root"]]
     quick_n = 1500
     thorough_n = 40000
+    case_timeout = 10
     trusted_base = [
         "Lean 4.33.0 kernel; axioms propext, Classical.choice, Quot.sound only (audited per theorem)",
         "hand-written model lean/OdmlModel/Model/Heap.lean, tied to /repo by this correspondence run",
@@ -126,6 +127,25 @@ class C03(HeapCheck):
                 objs.append(s)
                 objs.extend(s.properties)
             return objs
+        def chain(x):
+            out = []
+            while x is not None and len(out) < 1000:
+                out.append(x)
+                x = x.parent
+            return out
+
+        def related(x, y):
+            return any(o is y for o in chain(x)) or any(o is x for o in chain(y))
+
+        def linked():
+            out = []
+            for x in doc.itersections():
+                if x.link is not None:
+                    try:
+                        out.append((x, x.get_section_by_path(x.link)))
+                    except Exception:
+                        out.append((x, x))
+            return out
         for _ in range(r.randrange(1, 6)):
             what = r.choice(["clone_attach", "merge", "link", "clean", "finalize"])
             try:
@@ -140,12 +160,24 @@ class C03(HeapCheck):
                     a.merge(b, strict=r.random() < 0.5)
                 elif what == "link" and len(secs) >= 2:
                     a, b = r.sample(secs, 2)
+                    # the scope of link resolution (C12): the target is neither the linking Section
+                    # nor an ancestor or descendant of it, and no target is, contains or lies inside
+                    # another linking Section. Outside it (a Section linked to its own ancestor)
+                    # finalize() unfolds the tree without end, which is not C03's subject.
+                    if related(a, b) or any(related(b, x) or related(y, a) or related(y, b) or related(x, a)
+                                            for x, y in linked()):
+                        log.append([what, "out-of-scope"])
+                        continue
                     a.link = b.get_path()
                 elif what == "clean":
                     doc.clean()
                 elif what == "finalize":
                     doc.finalize()
                 log.append([what, "ok"])
+            except fw.CaseTimeout:
+                # link structures outside C12's scope can still arise (a clone carries its link
+                # along); their unfolding is not observable in finite time and not C03's subject
+                return {"extra": True, "log": log + [[what, "timeout"]], "fails": []}
             except RecursionError:
                 log.append([what, "RecursionError"])
             except Exception as exc:
